@@ -12,7 +12,7 @@ RULE = ("enum: the 20 single residues, all 400 ordered pairs and all 8000 ordere
         "getter of the statement equals the fsum of the harness's own transcription of the published per-residue table "
         "divided by N (molecular weight: sum - 18(N-1)); identities FCR=f+ + f-, NCPR=f+ - f-, |NCPR|<=FCR<=1, counts sum to N, "
         "fractions sum to 1, mean net charge=|NCPR|, expanding=FCR+f_P, Uversky=KD_shifted/9; permutation invariance (1e-9; "
-        "counts exact). Non-trivial: >=3 distinct residues (enum: every case); distinct by sequence.")
+        "counts exact). Non-trivial: >=3 distinct residues (enum: every case); distinct by sequence. A quarter of the random cases build the object from a pasted spelling (lower case / trailing newline / blocks of ten / wrapped lines / tab). In the generated parts one clean word in eight is handed to the constructor as SeqObj=Sequence(lower/mixed-case text) instead of as a string (same object expected).")
 ASSUMPTIONS = ["per-residue tables in vlc/ref.py are transcriptions of the cited scales (Kyte-Doolittle, Wimley-White with localCIDER's sign "
                "convention, Elam/Rucker/Shi PPII scales via Tomasso et al., average residue masses); a published value copied wrongly into "
                "both code and harness would be invisible",
